@@ -15,16 +15,18 @@ ToSet(s) == {s[i] : i \in 1 .. Len(s)}
 Thr == {"t1", "t2", "t3", "t4"}
 
 VARIABLES l, held, cand, pcs, bad,
-          relStarted,   \* ids for which a release has started since they were last acquired
-          trued         \* ... and for which a Clear has reported true
-vars == <<l, held, cand, pcs, bad, relStarted, trued>>
+          acq,          \* id -> number of times its bit went from clear to set (effect of an acquisition)
+          trues,        \* id -> number of Clear calls that returned true
+          start         \* line of the "init" record of the current schedule
+          
+vars == <<l, held, cand, pcs, bad, acq, trues, start>>
 
 Init == /\ l = 1
         /\ held = [t \in Thr |-> {}]
         /\ cand = [t \in Thr |-> {}]
         /\ pcs = [t \in Thr |-> "idle"]
         /\ bad = "none"
-        /\ relStarted = {} /\ trued = {}
+        /\ acq = <<>> /\ trues = <<>> /\ start = 1
 
 Cur == Log[l]
 Free(k) == ToSet(Log[k].free)
@@ -33,27 +35,38 @@ Reset == /\ Cur.op = "init"
          /\ held' = [t \in Thr |-> {}]
          /\ cand' = [t \in Thr |-> {}]
          /\ pcs' = [t \in Thr |-> "idle"]
-         /\ relStarted' = {} /\ trued' = {}
+         /\ acq' = <<>> /\ trues' = <<>> /\ start' = l
          /\ bad' = IF Cur.inuse # N - Cardinality(Free(l)) - 1 THEN "CountExact" ELSE "none"
 
 Step ==
   /\ Cur.op # "init"
   /\ LET t == Cur.t
          fr == Free(l)
+         ret == Cur.pc = "idle"
          allHeld == UNION {held[u] : u \in Thr}
          \* a thread's ghost: ids free at every instant since its GetStream began
          cand1 == [u \in Thr |-> IF u = t /\ Cur.op = "get" THEN Free(l - 1) \cap fr ELSE cand[u] \cap fr]
          \* the hold ends when any release path starts (two paths may race on one id)
          held1 == IF Cur.op = "clear" THEN [u \in Thr |-> held[u] \ {Cur.id}] ELSE held
-         rel1 == IF Cur.op = "clear" THEN relStarted \cup {Cur.id} ELSE relStarted
-         ret == Cur.pc = "idle"
+         \* Returns are not linearization points, so releases are counted against EFFECTS: every
+         \* Clear that reports true must correspond to one clear->set->clear cycle of the bit,
+         \* which the per-step bitmaps show.
+         Cnt(f, x) == IF x \in DOMAIN f THEN f[x] ELSE 0
+         Inc(f, X) == [x \in DOMAIN f \cup X |-> Cnt(f, x) + (IF x \in X THEN 1 ELSE 0)]
+         newlySet == Free(l - 1) \ fr
+         acq1 == Inc(acq, newlySet)
+         trues1 == IF ret /\ Cur.rk = "clear_true" THEN Inc(trues, {Cur.rv}) ELSE trues
+         \* ids in use at the start of the log count as acquired once
+         Base(x) == IF x \in Free(start) THEN 0 ELSE 1
          pcs1 == [pcs EXCEPT ![t] = Cur.pc]
          v == CASE ret /\ Cur.rk = "get_ok" /\ Cur.rv \in UNION {held1[u] : u \in Thr} -> "Unique"
                 [] ret /\ Cur.rk = "get_ok" /\ ~(Cur.rv \in 1 .. N - 1) -> "Range"
                 [] ret /\ Cur.rk = "get_ok" /\ Cur.rv \in fr -> "HeldMarked"
                 [] ret /\ Cur.rk = "get_fail" /\ cand1[t] # {} -> "NoFalseExhaustion"
-                [] ret /\ Cur.rk = "clear_true" /\ Cur.rv \in trued -> "OneTrueRelease"
-                [] (\A u \in Thr : pcs1[u] = "idle") /\ ~(rel1 \subseteq (trued \cup (IF ret /\ Cur.rk = "clear_true" THEN {Cur.rv} ELSE {}))) -> "ClearReports"
+                [] \E x \in DOMAIN trues1 : trues1[x] > Cnt(acq1, x) + Base(x) -> "OneTrueRelease"
+                [] (\A u \in Thr : pcs1[u] = "idle")
+                   /\ \E x \in DOMAIN acq1 \cup DOMAIN trues1 :
+                         Cnt(trues1, x) # Cnt(acq1, x) + Base(x) - (IF x \in fr THEN 0 ELSE 1) -> "ClearReports"
                 [] 0 \in fr -> "Reserved"
                 [] Cur.inuse < 0 -> "CountNonNeg"
                 [] (\A u \in Thr : pcs1[u] = "idle") /\ Cur.inuse # N - Cardinality(fr) - 1 -> "CountExact"
@@ -62,9 +75,9 @@ Step ==
      IN /\ held' = IF ret /\ Cur.rk = "get_ok" THEN [held1 EXCEPT ![t] = @ \cup {Cur.rv}] ELSE held1
         /\ cand' = cand1
         /\ pcs' = pcs1
-        /\ relStarted' = IF ret /\ Cur.rk = "get_ok" THEN rel1 \ {Cur.rv} ELSE rel1
-        /\ trued' = IF ret /\ Cur.rk = "clear_true" THEN trued \cup {Cur.rv}
-                    ELSE IF ret /\ Cur.rk = "get_ok" THEN trued \ {Cur.rv} ELSE trued
+        /\ acq' = acq1
+        /\ trues' = trues1
+        /\ start' = start
         /\ bad' = v
 
 Next == /\ l <= Len(Log)
